@@ -9,7 +9,7 @@
     [st_supply] is the model's bank supply (mint / burn), [st_win] the ghost "incoming amount
     completed since the last window reset".  Asset parameters do not change inside a history
     (there is no parameter-update operation; [reachable_invariant] states [st_params] stays [P]). *)
-From Irismod Require Import Htlc.Model Htlc.Proofs Htlc.Examples Htlc.Check Htlc.Sound Htlc.Passes Htlc.PassesEx Htlc.ParamChange.
+From Irismod Require Import Htlc.Model Htlc.Proofs Htlc.Examples Htlc.Check Htlc.Sound Htlc.Passes Htlc.PassesEx Htlc.ParamChange Htlc.CoreHist.
 
 (** ** Inv_C04 holds in every reachable state (induction over the history: [Inv] holds at
     genesis and is preserved by every message and every block boundary) *)
@@ -145,6 +145,28 @@ Theorem inv_C04_after_compatible_param_change :
     Inv (run (set_params s P') ops) /\ Strict (run (set_params s P') ops).
 Proof. exact run_after_compatible_param_change. Qed.
 Print Assumptions inv_C04_after_compatible_param_change.
+
+(** inv_C04_along_every_history: the parameter-independent clauses hold along EVERY history whose accepted
+    parameter changes keep the supported denoms ([wf_core_run]: no condition on the new VALUES - limits may
+    be cut below the usage, time-based limits, periods, flags, deputies, fees and bounds changed at will,
+    between any messages and blocks): escrow = open contracts, the three counters = the sums, bank supply =
+    current, outgoing <= current, queue <-> open contracts, per-contract log, and no open contract at or past
+    its expiration height.  (Htlc/CoreHist.v: each such state is shadowed by one with relaxed limits that
+    satisfies the full invariant, and every accepted operation has the same effect on both.) *)
+Theorem inv_C04_along_every_history :
+  forall P b t0 ops, params_ok P -> escrow_empty b -> wf_core_run (init P b t0) ops ->
+    InvCore (reachable P b t0 ops) /\ Strict (reachable P b t0 ops).
+Proof. exact core_reachable_lemma. Qed.
+Print Assumptions inv_C04_along_every_history.
+
+(** non-vacuity: a history with an incompatible limit cut (not a [wf_run] history): the pending incoming
+    claim is rejected afterwards, the transfer is refunded at expiry *)
+Example c04_history_with_incompatible_change :
+  let s0 := init exP exB (ts0 * ns) in
+  wf_core_run s0 exOps3 /\ ~ wf_run s0 exOps3
+  /\ map (fun n => step_ok (run s0 (firstn n exOps3)) (nth n exOps3 (Adv []))) [0; 1; 2; 3]%nat = [true; true; false; true]
+  /\ option_map c_state (get id2 (st_contracts (run s0 exOps3))) = Some Refunded.
+Proof. exact exOps3_facts. Qed.
 
 (** the sums survive any SEQUENCE of parameter changes keeping the denoms, and the whole invariant is
     restored by the first change whose limits cover the usage again (e.g. the authority undoes a cut) *)
